@@ -17,7 +17,7 @@ func TestExplore(t *testing.T) {
 	}
 	run.VerifDir = t.TempDir()
 	c := run.Open("C10", "exploration")
-	e := &env{c: c, rig: newRig(), benign: map[benignKey]*benignVal{}, minis: map[string]int{}}
+	e := &env{c: c, rig: newRig(), benign: map[benignKey]*benignVal{}, minis: map[string]int{}, known: map[string][]knownSig{}}
 	only := os.Getenv("C10_POS")
 	dump := os.Getenv("C10_DUMP") != ""
 	hostile := []string{`x'`, `a\b`, `a\%`, "\xff'", `"`, "`", ""}
@@ -31,7 +31,7 @@ func TestExplore(t *testing.T) {
 		for _, v := range []variant{{}, {Cluster: true, Metrics15s: true, TempoV2: true, Complex: true}} {
 			f := p.forms[0]
 			exp := p.expect(marker)
-			b, why := e.benignFor(p, f, exp.class, v, false)
+			b, why := e.benignFor(p, f, exp.class, exp.free, v, false)
 			if b == nil {
 				fmt.Printf("%-45s %s BENIGN-FAIL %s\n", p.name, v, why)
 				continue
